@@ -21,7 +21,28 @@ use crate::runner::*;
 
 pub struct C17;
 
+/// One integer column per layout of the binary response (constant step, i8 / i16 / i32 differences, i8 / i16 / i32 second
+/// differences, raw): the layout is chosen from the differences of the values.
+fn layouts_table() -> TableBatch {
+    let c = |v: [i64; 4]| v.iter().map(|x| ri(*x)).collect::<Vec<_>>();
+    TableBatch::new("w", 4)
+        .col("l_range", c([10, 11, 12, 13]))
+        .col("l_d8", c([100, 105, 103, 110]))
+        .col("l_dd8", c([0, 1000, 2010, 3015]))
+        .col("l_d16", c([0, 1000, 500, 30000]))
+        .col("l_dd16", c([1_700_000_000_000, 1_700_000_060_250, 1_700_000_120_100, 1_700_000_180_400]))
+        .col("l_d32", c([0, 100_000, 50_000, 2_000_000_000]))
+        .col("l_dd32", c([0, 3_000_000_000, 6_000_100_000, 9_000_100_000]))
+        .col("l_raw", c([0, i64::MAX - 1, -5, 1 << 62]))
+}
+
 fn b1() -> Batch {
+    let mut b = b1_t();
+    b.tables.push(layouts_table());
+    b
+}
+
+fn b1_t() -> Batch {
     Batch::one(
         TableBatch::new("t", 4)
             .col("id", vec![ri(1), ri(2), ri(3), ri(4)])
@@ -61,6 +82,8 @@ pub fn queries() -> Vec<&'static str> {
         "SELECT nosuch, id FROM t",
         "SELECT k FROM u",
         "SELECT id + 1, f * 2 FROM t",
+        "SELECT l_range, l_d8, l_dd8, l_d16 FROM w",
+        "SELECT l_dd16, l_d32, l_dd32, l_raw FROM w",
         // failing
         "SELEC id FROM t",
         "SELECT id FROM nosuchtable",
@@ -425,7 +448,7 @@ impl Engine for C17 {
     fn describe(&self, tier: Tier) -> Describe {
         Describe {
             level: "model_checking",
-            rule: format!("states = every sequence of 0..{} insert_bin requests over two batches (b1: ints beyond 2^53 and at the i64 limits, -0.0, 1e300, unicode and empty strings, sparse nullable int / float, a mixed column; b2: a request touching two tables with infinite / NaN floats and a nullable string) sent to a real server started with server::run on a loopback port; in every state every query of a set of 17 (12 answerable: plain, nullable, mixed, SELECT *, grouped, ordered + limited, aggregates, unknown column, second table, expressions; 5 failing: syntax error, unknown table, overflow, type error, fractional LIMIT) goes through /query, /query_cols, /multi_query_cols (JSON), /multi_query_cols binary without and with xor float compression and is compared with LocustDB::run_query on the same Arc<LocustDB>: same names, order and values (non-finite floats excepted in JSON); a failing query must give status >= 400 and the next request must be answered. Non-trivial: state with at least one insert; distinct by (state, query, endpoint).", if tier == Tier::Quick { 2 } else { 3 }),
+            rule: format!("states = every sequence of 0..{} insert_bin requests over two batches (b1: ints beyond 2^53 and at the i64 limits, -0.0, 1e300, unicode and empty strings, sparse nullable int / float, a mixed column, and a table with one integer column per layout of the binary response - constant step, i8 / i16 / i32 differences, i8 / i16 / i32 second differences, raw; b2: a request touching two tables with infinite / NaN floats and a nullable string) sent to a real server started with server::run on a loopback port; in every state every query of a set of 19 (14 answerable: the response-layout columns, plain, nullable, mixed, SELECT *, grouped, ordered + limited, aggregates, unknown column, second table, expressions; 5 failing: syntax error, unknown table, overflow, type error, fractional LIMIT) goes through /query, /query_cols, /multi_query_cols (JSON), /multi_query_cols binary without and with xor float compression and is compared with LocustDB::run_query on the same Arc<LocustDB>: same names, order and values (non-finite floats excepted in JSON); a failing query must give status >= 400 and the next request must be answered. Non-trivial: state with at least one insert; distinct by (state, query, endpoint).", if tier == Tier::Quick { 2 } else { 3 }),
             assumptions: vec!["the embedded answer is the reference: a wrong answer shared by both interfaces is the business of other properties".into(), "mantissa reduction is checked at codec level in C16".into()],
             bounds: json!({"states": states(tier).len(), "queries": queries().len(), "endpoints": ENDPOINTS}),
             states_meaning: "distinct (insert history, query, endpoint) triples compared",
